@@ -238,6 +238,21 @@ def a_reconfigure_worlds(rng: random.Random, n: int) -> T.List[dict]:
             p2 = {'wrap_mode': rng.choice(A_FACTORS['wrap_mode']), 'fff': rng.choice(A_FACTORS['fff'])}
             if (p2['wrap_mode'], p2['fff']) != (cell['wrap_mode'], cell['fff']):
                 break
+        if rng.random() < 0.55:
+            # the system dependency comes from two pkg-config directories; the reconfiguration reorders them,
+            # drops or adds one (and may keep or change the wrap options)
+            r = rng.random()
+            if r < 0.5:
+                a, b = rng.choice([(['A', 'B'], ['B', 'A']), (['B', 'A'], ['A', 'B'])])
+            else:
+                paths = [[], ['A'], ['B'], ['A', 'B'], ['B', 'A']]
+                a = rng.choice(paths)
+                b = rng.choice([x for x in paths if x != a])
+            w['pcpath'] = a
+            w['system'] = None
+            if rng.random() < 0.6:
+                p2 = {'wrap_mode': cell['wrap_mode'], 'fff': cell['fff']}
+            p2['pcpath'] = b
         w['phase2'] = p2
         out.append(w)
     return out
@@ -269,7 +284,12 @@ def a_world_files(world: dict, root: str = '') -> T.Tuple[T.Dict[str, T.Union[st
     """-> (files relative to the case root, extra `meson setup` arguments, {}); `root` (absolute) is needed for
     the file:// URL of a world whose subproject must be downloaded."""
     files: T.Dict[str, T.Union[str, bytes]] = {}
-    if world['system'] is not None:
+    if world.get('pcpath') is not None:
+        # the system dependency lives in two directories, in different versions; -Dpkg_config_path selects (ordered)
+        files['pc/.keep'] = ''
+        for d, v in PCDIRS.items():
+            files[f'pc{d}/{DEP}.pc'] = f'Name: {DEP}\nDescription: system {DEP} in {d}\nVersion: {v}\n'
+    elif world['system'] is not None:
         files[f'pc/{DEP}.pc'] = f'Name: {DEP}\nDescription: system {DEP}\nVersion: {world["system"]}\n'
     else:
         files['pc/.keep'] = ''
@@ -284,9 +304,17 @@ def a_world_files(world: dict, root: str = '') -> T.Tuple[T.Dict[str, T.Union[st
         top.append(f"meson.override_dependency('{DEP}', declare_dependency(version: '{OVR_VERSIONS[world['pver']]}'))")
     elif pre == 'override_sub':
         top.append(subcall)
+    elif pre == 'failed_sub':
+        top.append(f"subproject('{SUB}', required: false)")
     for i, lk in enumerate(world['seq'], 1):
         top.append(f"d{i} = dependency('{DEP}'{_kwargs_text(lk, world)})")
         top.append(f"message('R|{i}|@0@|@1@|@2@'.format(d{i}.found(), d{i}.type_name(), d{i}.version()))")
+    if world.get('side_overrides'):
+        # other things the subproject registers: visible iff the subproject was configured SUCCESSFULLY
+        top.append(f"xb = dependency('{SIDE_DEP}', required: false)")
+        top.append("message('X|dep|@0@'.format(xb.found()))")
+        top.append(f"xp = find_program('{SIDE_PROG}', required: false)")
+        top.append("message('X|prog|@0@'.format(xp.found()))")
     top.append("message('END')")
     files['src/meson.build'] = '\n'.join(top) + '\n'
     if world['sub']:
@@ -298,9 +326,21 @@ def a_world_files(world: dict, root: str = '') -> T.Tuple[T.Dict[str, T.Union[st
             body = f"{VAR} = declare_dependency(version: '{v}')\n"
             if world.get('sub_overrides'):
                 body += f"meson.override_dependency('{DEP}', {VAR})\n"
+        subfiles: T.Dict[str, bytes] = {}
+        if world.get('side_overrides'):
+            body += (f"meson.override_dependency('{SIDE_DEP}', declare_dependency(version: '3.3'))\n"
+                     f"meson.override_find_program('{SIDE_PROG}', files('prog.sh'))\n")
+            subfiles['prog.sh'] = b'#!/bin/sh\nexit 0\n'
+        if world.get('sub_fails') == 'error':
+            body += "error('c10: this subproject fails after registering its overrides')\n"
+        elif world.get('sub_fails') == 'missingdep':
+            body += "dependency('c10-no-such-dependency-anywhere')\n"
         text = f"project('{SUB}', version: '9.9', meson_version: '>=1.0')\n" + body
+        for rel, data in subfiles.items():
+            if not world.get('sub_download'):
+                files[f'src/subprojects/{SUB}/{rel}'] = data
         if world.get('sub_download'):
-            blob = _archive({'meson.build': text.encode()}, 'tar', lead=SUB)
+            blob = _archive({'meson.build': text.encode(), **subfiles}, 'tar', lead=SUB)
             files[f'srv/{SUB}.tar'] = blob
         else:
             files[f'src/subprojects/{SUB}/meson.build'] = text
@@ -324,7 +364,69 @@ def a_world_files(world: dict, root: str = '') -> T.Tuple[T.Dict[str, T.Union[st
     if world['fff'] != 'none':
         val = DEP if world['fff'] == 'dep' else SUB
         args.append(f'--force-fallback-for={val}' if long else f'-Dforce_fallback_for={val}')
+    if world.get('pcpath') is not None:
+        args.append(pcpath_arg(world['pcpath'], root))
     return files, args, {}
+
+
+PCDIRS = {'A': '1.0', 'B': '2.0'}
+SIDE_DEP = 'c10bar'
+SIDE_PROG = 'c10prog'
+
+
+def pcpath_arg(pcpath: T.Sequence[str], root: str) -> str:
+    return '-Dpkg_config_path=' + ','.join(f'{root}/pc{d}' for d in pcpath)
+
+
+def system_of(world: dict) -> T.Optional[str]:
+    """Version of the system dependency: with pkg_config_path the FIRST listed directory wins (both have it)."""
+    if world.get('pcpath') is not None:
+        return PCDIRS[world['pcpath'][0]] if world['pcpath'] else None
+    return world['system']
+
+
+def a_failing_sub_worlds(rng: random.Random, n: int) -> T.List[dict]:
+    """A fallback / provide subproject that registers its overrides (the name, another name, a program) and then
+    FAILS, reached by an optional lookup; then 1-2 more lookups of the same name.  A failed subproject provides
+    nothing; repeated lookups agree."""
+    out = []
+    for _ in range(n):
+        kind = rng.choice(['explicit', 'explicit', 'provide', 'provide', 'failed_sub'])
+        sub_overrides = rng.random() < 0.8
+        provide = kind == 'provide' or (kind == 'failed_sub' and rng.random() < 0.5)
+
+        def first() -> dict:
+            return {'constraint': rng.choice([None, None, '>=2', '<2']), 'required': False,
+                    'allow_fallback': None if kind == 'explicit' else rng.choice([True, True, None]),
+                    'explicit': kind == 'explicit',
+                    'eform': rng.choice(['pair', 'single']) if sub_overrides else 'pair', 'afform': 'kw',
+                    'static': rng.choice([None, None, None, True, False])}
+        seq = [first()]
+        for _k in range(rng.choice([1, 2, 2])):
+            r = rng.random()
+            if r < 0.45:
+                seq.append(dict(seq[0]))
+            elif r < 0.75:
+                seq.append(first())
+            else:
+                l = dict(rng.choice([x for x in LOOKUP_ALPHABET if not x['explicit'] or kind == 'explicit']))
+                l['required'] = False
+                seq.append(l)
+        if rng.random() < 0.25:
+            seq[-1] = dict(seq[-1], required=True)
+        out.append({
+            'system': rng.choice([None, None, None, '1.0', '2.0']),
+            'wrap_mode': rng.choice(['default', 'default', 'nodownload', 'forcefallback', 'nofallback']),
+            'fff': rng.choice(['none', 'none', 'dep', 'sub']),
+            'main_dl': 'shared', 'sub_dl_how': 'same', 'sub_dl_value': None,
+            'provide': provide, 'sub_overrides': sub_overrides,
+            'sub_download': kind != 'failed_sub' and rng.random() < 0.15,
+            'sub': True, 'pre': 'failed_sub' if kind == 'failed_sub' else 'none',
+            'pver': rng.choice(['lo', 'hi']), 'optstyle': rng.choice(['D', 'long']),
+            'sub_fails': rng.choice(['error', 'error', 'missingdep']) if rng.random() < 0.85 else None,
+            'side_overrides': True, 'seq': seq,
+        })
+    return out
 
 
 def classify_answer(found: str, type_name: str, version: str) -> T.Tuple[str, ...]:
